@@ -410,6 +410,63 @@ func errDroppedReturns(fn *ssa.Function) []droppedErr {
 			}
 			return false
 		}
+		// (c) from the NON-NIL side of a nil-test of the error, no success return is reachable except through the true
+		// side of a sentinel test (errors.Is / == io.EOF: a deliberate translation) or past a use of the error (stored,
+		// sent, passed on: handled by other means)
+		sentinelEdge := map[[2]*ssa.BasicBlock]bool{}
+		instrs(fn, func(x ssa.Instruction) {
+			iff, ok := x.(*ssa.If)
+			if !ok {
+				return
+			}
+			if sentinelSide(guard{iff.Cond, true, iff}) {
+				sentinelEdge[[2]*ssa.BasicBlock{iff.Block(), iff.Block().Succs[0]}] = true
+			}
+		})
+		usesErr := func(x ssa.Instruction) bool {
+			switch y := x.(type) {
+			case *ssa.If, *ssa.BinOp, *ssa.Phi, *ssa.DebugRef:
+				return false
+			case *ssa.Return:
+				return false
+			case *ssa.Call:
+				if n := calleeFullName(y); n == "errors.Is" || n == "errors.As" {
+					return false
+				}
+			}
+			for _, op := range x.Operands(nil) {
+				if *op != nil && errs[*op] {
+					return true
+				}
+			}
+			return false
+		}
+		instrs(fn, func(x ssa.Instruction) {
+			iff, ok := x.(*ssa.If)
+			if !ok {
+				return
+			}
+			op, a, b, ok := asCmp(iff.Cond)
+			if !ok || !((errs[a] && isNilConst(b)) || (errs[b] && isNilConst(a))) {
+				return
+			}
+			nn := iff.Block().Succs[0]
+			if op == token.EQL {
+				nn = iff.Block().Succs[1]
+			}
+			var hit *ssa.Return
+			q := pathQuery{fn: fn, goal: func(y ssa.Instruction) bool {
+				ret, ok := y.(*ssa.Return)
+				if ok && len(ret.Results) > ei && isNilConst(ret.Results[ei]) {
+					hit = ret
+					return true
+				}
+				return false
+			}, avoid: usesErr, avoidEdge: func(p, q *ssa.BasicBlock) bool { return sentinelEdge[[2]*ssa.BasicBlock{p, q}] }}
+			if reach, wit := pathFromBlock(q, nn); reach {
+				out = append(out, droppedErr{c, hit, "a success return is reachable from the non-nil side of the test of the callee's error without that error being used: " + wit})
+			}
+		})
 		instrs(fn, func(in2 ssa.Instruction) {
 			ret, ok := in2.(*ssa.Return)
 			if !ok || len(ret.Results) <= ei || !isNilConst(ret.Results[ei]) {
@@ -449,6 +506,63 @@ func errDroppedReturns(fn *ssa.Function) []droppedErr {
 				}
 			}
 		})
+	})
+	return out
+}
+
+// DEFER-SEES-RESULT: a deferred closure that captures an error variable of the enclosing function (to report it —
+// callbacks.OnError — or to set it — a recover handler) must capture the function's RESULT: every return of the
+// function then reads its error from that very cell (`return nil, e` stores e into it before the defers run). A
+// captured plain local that returns do not go through is never what the caller gets: the hook sees nil for ever, or
+// the recovered error is dropped.
+type deferCell struct {
+	fn    *ssa.Function
+	def   *ssa.Defer
+	cell  *ssa.Alloc
+	okAll bool
+	bad   *ssa.Return
+}
+
+func deferredErrorCells(fn *ssa.Function) []deferCell {
+	var out []deferCell
+	errT := types.Universe.Lookup("error").Type()
+	res := fn.Signature.Results()
+	if res.Len() == 0 || !types.Identical(res.At(res.Len()-1).Type(), errT) {
+		return nil
+	}
+	ei := res.Len() - 1
+	instrs(fn, func(in ssa.Instruction) {
+		d, ok := in.(*ssa.Defer)
+		if !ok {
+			return
+		}
+		mc, ok := d.Call.Value.(*ssa.MakeClosure)
+		if !ok {
+			return
+		}
+		for _, b := range mc.Bindings {
+			al, ok := b.(*ssa.Alloc)
+			if !ok {
+				continue
+			}
+			pt, ok := al.Type().Underlying().(*types.Pointer)
+			if !ok || !types.Identical(pt.Elem(), errT) {
+				continue
+			}
+			dc := deferCell{fn: fn, def: d, cell: al, okAll: true}
+			instrs(fn, func(in2 ssa.Instruction) {
+				ret, ok := in2.(*ssa.Return)
+				if !ok || len(ret.Results) <= ei {
+					return
+				}
+				ld, ok := ret.Results[ei].(*ssa.UnOp)
+				if !ok || ld.Op != token.MUL || ld.X != ssa.Value(al) {
+					dc.okAll = false
+					dc.bad = ret
+				}
+			})
+			out = append(out, dc)
+		}
 	})
 	return out
 }
